@@ -10,16 +10,16 @@ HOOK_COMMITS = subprocess.run(["git", "-C", "/repo", "log", "--format=%H", "--gr
 
 # property -> (technique, level text, level note, design ref)
 CLAIMED = {
-    "C01": ('Coq theorems over transliterations (rose-tree mirror of go/ast with go/types facts, explicit Panic outcomes) of 13 hand-written checkers + differential tie on converted real files + recover/watchdog oracle over all 107 checkers',
-            "PARTIAL. Modelled with theorems (Properties_C01.v): appendCombine, appendAssign, newDeref(+ZeroValueOf), typeDefFirst, sortSlice, evalOrder, dupOption, flagName, filepathJoin, rangeAppendAll and the entry guards of badRegexp/regexpPattern/regexpSimplify: C01_X_total : wf f = true -> run_X f <> Panic _ holds unconditionally for all thirteen (every partial Go operation is an explicit Panic site in the model; termination = Coq's structural recursion). Eleven of them crashed before repository commits a8b628a..98eb553; C01_prefix_X_refuted documents each fixed crash as a statement about the explicitly named pre-fix definition (Model_Checkers_Prefix.v) and C01_fixed_witnesses_ok evaluates the current definitions on the same witnesses. Tie: goast2m converts every S1 testdata file, S2 stress file (incl. the w_* crash regressions) and S3 mutant to a model term; Coq evaluates wf on it and compares {ok,panic} and the list of warning offsets of every modelled checker with what the real checker did under recover (425 files, ~74k nodes per quick run). Oracle-monitored only: all other hand-written checkers, the 40 rule-based checkers, the ruleguard/gogrep engine, go/printer/astfmt - every registered checker x parameter variant (booleans both ways, numeric 0/1/default/huge) x file runs under recover + 10 s watchdog; panics are shrunk by declaration/statement delta debugging with re-type-checking.",
+    "C01": ('Coq theorems over transliterations (rose-tree mirror of go/ast with go/types facts, explicit Panic outcomes) of 15 hand-written checkers + differential tie on converted real files + recover/watchdog oracle over all 107 checkers',
+            "PARTIAL. Modelled with theorems (Properties_C01.v): appendCombine, appendAssign, newDeref(+ZeroValueOf), typeDefFirst, sortSlice, evalOrder, dupOption, flagName, filepathJoin, rangeAppendAll, truncateCmp (both values of skipArchDependent), nilValReturn and the entry guards of badRegexp/regexpPattern/regexpSimplify: C01_X_total : wf f = true -> run_X f <> Panic _ holds unconditionally for all fifteen (every partial Go operation is an explicit Panic site in the model; termination = Coq's structural recursion). Eleven of them crashed before repository commits a8b628a..98eb553; C01_prefix_X_refuted documents each fixed crash as a statement about the explicitly named pre-fix definition (Model_Checkers_Prefix.v) and C01_fixed_witnesses_ok evaluates the current definitions on the same witnesses. Tie: goast2m converts every S1 testdata file, S2 stress file (incl. the w_* crash regressions) and S3 mutant to a model term; Coq evaluates wf on it and compares {ok,panic} and the list of warning offsets of every modelled checker with what the real checker did under recover (425 files, ~74k nodes per quick run). Oracle-monitored only: all other hand-written checkers, the 40 rule-based checkers, the ruleguard/gogrep engine, go/printer/astfmt - every registered checker x parameter variant (booleans both ways, numeric 0/1/default/huge) x file runs under recover + 10 s watchdog; panics are shrunk by declaration/statement delta debugging with re-type-checking.",
             'Trusted: Coq kernel + vm_compute; the goast2m converter (cross-checked by wf and by the warning comparison); go/parser, go/types, typep.SideEffectFree as fact sources; wall-clock bounds are only monitored. Not covered by theorems: everything not listed as modelled.',
             "§5 C01"),
     "C07": ('Coq theorems on warning positions of modelled checkers + the same tie (positions are the compared observable) + per-diagnostic position/text oracle with an independent go/scanner pass',
-            "PARTIAL. Theorems (Properties_C07.v): C07_X_pos_valid for all ten modelled checkers that emit warnings (appendCombine, appendAssign, newDeref, typeDefFirst, sortSlice, evalOrder, dupOption, flagName, filepathJoin, rangeAppendAll): every warning position is the Pos() of a node of the analysed file and therefore (wf) a token start of that file; the three regexp entry models emit nothing; C07_zero_value_no_nil_arg holds unconditionally (ZeroValueOf returns no suggestion for basic kinds without a literal since commit 10bed3d; the pre-fix defect is documented by C07_prefix_zero_value_no_nil_arg_refuted about the named pre-fix definition). Tie: as C01 on all 214 S1 files; wf includes 'every node position is a go/scanner token start'; warning offsets of all 13 modelled checkers are compared. Oracle-monitored only (all 107 checkers incl. rule-based, every diagnostic on S1+S2+S3): valid position in the analysed file at a token/comment start, fix range non-inverted and inside the file, text non-empty without %!, <nil>, PANIC=, BadExpr.",
+            "PARTIAL. Theorems (Properties_C07.v): C07_X_pos_valid for all twelve modelled checkers that emit warnings (appendCombine, appendAssign, newDeref, typeDefFirst, sortSlice, evalOrder, dupOption, flagName, filepathJoin, rangeAppendAll, truncateCmp, nilValReturn): every warning position is the Pos() of a node of the analysed file and therefore (wf) a token start of that file; the three regexp entry models emit nothing; C07_zero_value_no_nil_arg holds unconditionally (ZeroValueOf returns no suggestion for basic kinds without a literal since commit 10bed3d; the pre-fix defect is documented by C07_prefix_zero_value_no_nil_arg_refuted about the named pre-fix definition). Tie: as C01 on all 214 S1 files; wf includes 'every node position is a go/scanner token start'; warning offsets of all 15 modelled checkers are compared. Oracle-monitored only (all 107 checkers incl. rule-based, every diagnostic on S1+S2+S3): valid position in the analysed file at a token/comment start, fix range non-inverted and inside the file, text non-empty without %!, <nil>, PANIC=, BadExpr.",
             'Trusted: as C01; go/scanner as the independent token-start reference. Rule-engine positions and fix ranges are oracle-only.',
             "§5 C07"),
     "C20": ("Coq theorems on the recognition predicate (spelling vs object) recorded in each modelled warning + tie of the model's namesake verdict against a types.Info.Uses oracle on namesake stress packages",
-            "PARTIAL. Theorems (Properties_C20.v): C20_flagName_real (object-based recogniser: every flagName warning is about the imported package flag) holds for all files; for newDeref, appendAssign, appendCombine, rangeAppendAll, sortSlice, filepathJoin X_real is refuted with wf namesake witnesses (these recognisers still compare spellings; recorded as open findings, not fixed); C20_newDeref_real_partial holds under no_namesake. Tie: on the 38 ns_* stress packages (every subject x {package-level func, package-level var / method value, local var or func literal, parameter, import alias} x {same, different signature}) the offsets at which the model says 'namesake' equal the offsets flagged by the Go oracle. Oracle-monitored only: all subject-bearing checkers incl. the rule-based ones (subjects derived from rules.go patterns): the callee spelled like the subject at/around the diagnostic must resolve to the universe object or the documented package.",
+            "PARTIAL. Theorems (Properties_C20.v): C20_flagName_real (object-based recogniser: every flagName warning is about the imported package flag) holds for all files; for newDeref, appendAssign, appendCombine, rangeAppendAll, sortSlice, filepathJoin, truncateCmp, nilValReturn X_real is refuted with wf namesake witnesses (these recognisers still compare spellings; recorded as open findings, not fixed); C20_newDeref_real_partial holds under no_namesake. Tie: on the 39 ns_* stress packages (every subject x {package-level func, package-level var / method value, local var or func literal, parameter, import alias} x {same, different signature}) the offsets at which the model says 'namesake' equal the offsets flagged by the Go oracle. Oracle-monitored only: all subject-bearing checkers incl. the rule-based ones (subjects derived from rules.go patterns): the callee spelled like the subject at/around the diagnostic must resolve to the universe object or the documented package.",
             'Trusted: as C01; the subject table (hand-written for 12 checkers, derived from rules.go Match patterns for rule groups). Method subjects recognised by type filters inside the rule engine are oracle-only.',
             "§5 C20"),
     "C06": ("Coq theorems over a transliterated model of the three selection filters + exhaustive/sampled differential correspondence through verif hooks",
